@@ -72,7 +72,12 @@ pub fn run_behaviour(ctx: &RunCtx, phase: &str, spec: &BehaviourSpec) {
         }
         let mut orig = match behave::run_original(&source, &plain_cfg) {
             Ok(o) => o,
-            Err(e) => return CaseResult::Fail(Failure::new(e, json!({"kind": "harness", "source": source}))),
+            // the reference printer wrote something the reference parser refuses: a gap between the two
+            // halves of the harness, not something darklua did (counted, never reported as a violation)
+            Err(_) => {
+                st.class("harness_printer_parser_gap");
+                return CaseResult::Discard("harness: printed text does not parse (printer/parser gap)");
+            }
         };
         orig.lua51_target = spec.lua51_target;
         if spec.lua51_target && orig.luau.is_some() && orig.luau_only && orig.luau_dialect_events == [0, 0] {
